@@ -15,6 +15,25 @@ THEOREMS = [
     "C01_running_same_event_partial",
     "C01_refuted_running_bounded_unrepaired",
     "C01_refuted_running_subset_in_progress_unrepaired",
+    # from whatever state the run (or a replay) is started: no hypothesis on the initial state
+    "C01_slots_distinct_in_range_any_start",
+    "C01_workers_bounded_any_start",
+    "C01_running_subset_in_progress_any_start",
+    "C01_running_bounded_any_start",
+    "C01_running_same_event_partial_any_start",
+    "C01_running_bounded_with_step_sends",
+    "C01_allocator_total_any_table",
+    "C01_rewind_never_raises",
+    # between any two commands of a tick; the slot table as a specification, and the refinement
+    "C01_history_ends_in_run",
+    "C01_bounded_between_commands",
+    "C01_slot_table_refinement",
+    "C01_slot_table_spec_safe",
+    "C01_refuted_slot_safe_unrepaired",
+    # the anchored source as found on this run (harness/gen/worker_slots.py -> WfModel/GenWorkerSlots.lean)
+    "C01_slot_choice_is_source",
+    "C01_source_pick_is_free",
+    "C01_source_shape",
 ]
 LEAN_TARGETS = ["WfProps.C01"]
 EXPLANATION = (
@@ -25,19 +44,56 @@ EXPLANATION = (
     "(every schedule; the reducer before the repair 'at most one collect re-run per step result' is kept as a variant and refuted by a concrete witness). Tie: reducer model vs real "
     "_reduce_tick/rewind_in_progress on generated (state,tick) pairs incl. ill-formed ones, and whole live runs "
     "replayed tick by tick on the runner model (buffer, timers, worker set, commands, state). Search: real step "
-    "bodies count concurrent entries per step; stream slot discipline; in_progress tables after every tick."
+    "bodies count concurrent entries per step; stream slot discipline; in_progress tables after every tick. "
+    "Extension: none of this needs a hypothesis on the initial state (the rewind empties every in_progress table; the slot choice cannot raise on any table); "
+    "the bound holds in every state the runner passes through BETWEEN two commands of a tick (the real loop awaits there; micro-states incl. the early "
+    "cleanup of halting ticks, proved to be the same LTS), and every two consecutive such states are one move of a slot-table specification whose safety "
+    "is proved independently (refinement); the slot bookkeeping of control_loop.py (capacity test, candidate list and pick translated into Lean functions; "
+    "the only mutators of in_progress, the only CommandRunWorker sites, the collect re-run's slot and skip, the runner's worker registration) is re-read on "
+    "every run and proved to be what the model transcribes. Tie: per-command tables of worker coroutines/tasks of the real runner vs the model's micro-states; "
+    "rewind_in_progress on damaged tables; _add_or_enqueue_event on arbitrary id tables."
 )
 ASSUMPTIONS = suite.ENGINE_ASSUMPTIONS + [
     "the event of a live task equals the event of its in_progress row only when collect re-runs carry the invocation's own event "
     "(C01_running_same_event_partial; a step may pass any event to collect_events)",
     "cannot exhibit: a sync step whose executor thread outlives its cancelled task",
+    "between two commands the runner is observed at the boundaries of process_command (before the first, after each); what other tasks see during an await "
+    "inside one process_command is the table before or after that command (process_command changes the tables only in run_worker / cleanup_tasks, "
+    "pinned by GenWorkerSlots.pendingMutators / workerTaskMutators)",
+    "Runner.running stands for _pending_workers (coroutines not yet started) together with worker_tasks: a pending worker counts as started",
 ]
 
 
+def _replay_extension(env: Env, out: Outcome) -> None:
+    from ..engine import c01x
+    from ..runner import Violation
+
+    case = (env.replay or {}).get("payload", {}).get("case") if env.replay else None
+    if not isinstance(case, dict):
+        return
+    if "corrupt_rewind" in case:
+        cr = case["corrupt_rewind"]
+        c01x.corrupt_rewind(env, out, cr["index"] + 1, gen_seed=cr["gen_seed"], only_index=cr["index"])
+    if "admit" in case:
+        a = case["admit"]
+        e = c01x._admit_real(a["nw"], list(a["used"]))
+        if e.startswith("crash"):
+            out.violations.append(Violation("C01/allocator_raises", f"_add_or_enqueue_event raised IndexError with num_workers={a['nw']} and ids {a['used']}", case))
+        elif e.startswith("run") and (int(e.split(" ")[1]) in a["used"] or int(e.split(" ")[1]) >= a["nw"]):
+            out.violations.append(Violation("C01/allocator_picks_taken_slot", f"_add_or_enqueue_event answered {e} with num_workers={a['nw']} and ids {a['used']}", case))
+
+
 def run(env: Env) -> Outcome:
+    from ..engine import c01x
+
     out = Outcome()
+    c01x.install_micro_observers()
+    _replay_extension(env, out)
     out.rule = ("direct: random (state,tick) pairs; live: random scripted workflows (2-5 steps, num_workers 1-4, retries, collect, wait, "
-                "handlers, externals) under random gate schedules, plus a fan-in family whose collecting step calls collect_events 2-4 times on one buffer per invocation; non-trivial = more than 2 ticks processed; distinct by (spec, schedule)")
+                "handlers, externals) under random gate schedules, plus a fan-in family whose collecting step calls collect_events 2-4 times on one buffer per invocation; non-trivial = more than 2 ticks processed; distinct by (spec, schedule); "
+                "micro: on every live run the table of worker coroutines/tasks before the first and after every command of every tick and of the start-up rewind; "
+                "corrupt_rewind: generated states with damaged in_progress tables (duplicates / out-of-range ids / more rows than workers), distinct by state; "
+                "admit: num_workers 1-5 x id tables of length 0..num_workers+2 (45% reachable, 30% duplicates and out-of-range, 25% duplicates in range), distinct by (num_workers, table)")
     suite.direct_corr(env, out, env.budget(3000, 60000))
     import random as _random
 
@@ -45,8 +101,17 @@ def run(env: Env) -> Outcome:
     mrng = _random.Random(env.rng.randrange(1 << 30))
     multi = [{"spec": specgen.gen_multicollect_spec(mrng), "seed": mrng.randrange(1 << 30)} for _ in range(env.budget(40, 800))]
     out.count("live:multicollect_specs", len(multi))
-    suite.live_runs(env, out, env.budget(400, 8000), [monitors.mon_c01],
-                    extra_specs=[c for c in suite.load_corpus("C01")] + multi)
+    # the runner correspondence of these runs is done by c01x.micro_corr: the same rinit/ext/rstep/… lines, plus one line per
+    # tick (and one for the start-up) comparing the table of worker coroutines/tasks after every single command
+    t1 = suite.live_runs(env, out, env.budget(400, 8000), [monitors.mon_c01, c01x.mon_micro],
+                         extra_specs=[c for c in suite.load_corpus("C01")] + multi, check_runner=False)
+    c01x.micro_corr(out, t1)
     # fan-in: collecting steps with 1..3 workers, some of them with zero-delay retries that fail before / right after collecting
-    suite.live_runs(env, out, env.budget(250, 5000), [monitors.mon_c01], gen_kwargs={"family": "fanin", "raise_incomplete": True})
+    t2 = suite.live_runs(env, out, env.budget(250, 5000), [monitors.mon_c01, c01x.mon_micro], gen_kwargs={"family": "fanin", "raise_incomplete": True},
+                         check_runner=False)
+    c01x.micro_corr(out, t2)
+    # states no run leaves behind (duplicated / out-of-range worker ids, more rows than workers): the rewind repairs them
+    c01x.corrupt_rewind(env, out, env.budget(400, 8000))
+    # the admission on arbitrary id tables
+    c01x.admit_corr(env, out, env.budget(600, 12000))
     return out
